@@ -87,7 +87,12 @@ pub fn run(t: &mut Toks) -> Result<String, String> {
                     let entries = p_entries(t)?;
                     let mut m = serde_yaml::Mapping::new();
                     for (k, v) in entries {
-                        m.insert(serde_yaml::Value::String(k), v);
+                        // U+F8FE + YAML text: a key that is not a string (1, true, ~, [a], ...)
+                        let key = match k.strip_prefix('\u{F8FE}') {
+                            Some(rest) => serde_yaml::from_str::<serde_yaml::Value>(rest).map_err(|e| e.to_string())?,
+                            None => serde_yaml::Value::String(k),
+                        };
+                        m.insert(key, v);
                     }
                     if let Some(c) = cfg.as_mut() {
                         // write the file at <inventory_path>/<file> (relative to the scratch cwd)
